@@ -136,6 +136,7 @@ def _mk_general(return_good, with_mask, unwrapped=False):
             # criterion below is about the re-wrapped array
             s0 = z3.Int('beyond_2pi_at')
             c.assume(z3.And(0 <= s0, s0 < N, P(s0) > 2 * PI))
+            c.ghost['extreme_hints'] = [(s0,), (s0, z3.IntVal(0))]      # (phase.max() is bounded below by this very sample: decides the wrap branch)
             q = z3.Int('wq')
             c.assume(z3.ForAll([s, q], z3.And(0 <= WRAPPED(s, q), WRAPPED(s, q) < 2 * PI), patterns=[WRAPPED(s, q)]))
             c.ghost['WA'] = SArr((N, z3.IntVal(1)), lambda a_, b_: WRAPPED(a_, b_), 'f')
